@@ -328,3 +328,85 @@ def _accessor_outcomes(M, names, FRAME):
                     if r[0] == "raise":
                         return ("raise", name, r[1], f"the first {n} octet(s) of a frame with addresses of {d} and {s} octets (predicate values {list(dec)})")
     return ("ok", nw)
+
+
+# ----------------------------------------------------------------------------------------------- predicates of the current frame, on the frame worlds
+def sv_to_expr(sv, frame0):
+    """source text (over the name `frame`) of a symbolic value that reads only the reader's current frame and constants; None when it reads anything else"""
+    if sv == frame0:
+        return "frame"
+    if not isinstance(sv, tuple) or not sv:
+        return None
+    t = sv[0]
+    if t == "c":
+        return repr(sv[1]) if isinstance(sv[1], (int, bool, bytes, str, type(None))) else None
+    if t in ("prop", "f0") and len(sv) >= 3 and isinstance(sv[2], str):
+        b = sv_to_expr(sv[1], frame0)
+        return None if b is None else f"{b}.{sv[2]}"
+    if t == "len" and len(sv) >= 2:
+        b = sv_to_expr(sv[1], frame0)
+        return None if b is None else f"len({b})"
+    if t == "cmp" and len(sv) == 4:
+        op = {"Eq": "==", "NotEq": "!=", "Lt": "<", "LtE": "<=", "Gt": ">", "GtE": ">=", "Is": "is", "IsNot": "is not", "In": "in", "NotIn": "not in"}.get(sv[1])
+        a, b = sv_to_expr(sv[2], frame0), sv_to_expr(sv[3], frame0)
+        return None if op is None or a is None or b is None else f"({a} {op} {b})"
+    if t == "sub" and len(sv) == 3:
+        a, i = sv_to_expr(sv[1], frame0), sv_to_expr(sv[2], frame0)
+        return None if a is None or i is None else f"{a}[{i}]"
+    if t == "not" and len(sv) == 2:
+        a = sv_to_expr(sv[1], frame0)
+        return None if a is None else f"(not {a})"
+    if t == "op" and len(sv) == 4 and sv[1] in ("Add", "Sub"):
+        a, b = sv_to_expr(sv[2], frame0), sv_to_expr(sv[3], frame0)
+        return None if a is None or b is None else f"({a} {'+' if sv[1] == 'Add' else '-'} {b})"
+    return None
+
+
+_FP_MEMO = {}
+
+
+def frame_predicate_values(M, conds, target="frame.header.header_check_sequence is None", FRAME=("hdlc", "HdlcFrame")):
+    """the truth values the boolean expression `target` takes on the frame worlds in which the conditions `conds` ([(source text over `frame`, polarity)], tested in
+    this order, later ones only when the earlier ones had their polarity - as on the path they come from) all hold.  Worlds: every prefix of frames built through the
+    public API (symbolic octets, several address layouts), every truth value of the bit-vector predicates tested.  -> a set of bools (empty: the conditions hold in no
+    world), or None when some world cannot be evaluated"""
+    import ast as _ast
+    from sa.model import Func
+    key = (id(M), tuple(conds), target)
+    if key in _FP_MEMO:
+        return _FP_MEMO[key]
+    vals = set()
+    try:
+        src = "def __frame_predicates(frame):\n" + "".join((f"    if not ({e}):\n        return None\n" if pol else f"    if ({e}):\n        return None\n") for e, pol in conds) + f"    return bool({target})\n"
+        node = _ast.parse(src).body[0]
+        fn = Func("hdlc", None, "__frame_predicates", node)
+        app = M.find_method(FRAME, "append")
+        if app is None:
+            raise ValueError("append")
+        for d, s in ((1, 1), (2, 1), (1, 2), (4, 4)):
+            A = BVEval(M)
+            vars_ = Vars()
+            total = 2 + d + s + 1 + 2 + 3 + 2
+            frame = A.instantiate(FRAME, [])
+            for n in range(0, total + 1):
+                if n > 0:
+                    i = n - 1
+                    v = vars_.fresh(f"o{i}", 8)
+                    ext = None
+                    if 2 <= i < 2 + d:
+                        ext = 1 if i == 2 + d - 1 else 0
+                    elif 2 + d <= i < 2 + d + s:
+                        ext = 1 if i == 2 + d + s - 1 else 0
+                    o = v if ext is None else BV([ext] + list(v.bits[1:]))
+                    r = A.apply(app, [frame, o])
+                    if r[0] != "value":
+                        raise ValueError(f"append: {r}")
+                for dec, r in run_all_valuations(A, fn, [frame], limit=64):
+                    if r[0] != "value" or not (r[1] is None or isinstance(r[1], bool)):
+                        raise ValueError(f"predicate: {r}")
+                    if r[1] is not None:
+                        vals.add(r[1])
+    except Exception:  # noqa - outside the interpreted subset: nothing is learnt
+        vals = None
+    _FP_MEMO[key] = vals
+    return vals
